@@ -127,15 +127,16 @@ def _witness_failure(fn):
         from vp import harness
         try:
             harness.CONCRETE[0] = True
+            del harness.UNMODELLED[:]
             with contextlib.redirect_stdout(io.StringIO()):
                 v = fn(*args)
         except Exception as e:
-            if type(e).__name__ == 'Inconclusive':
+            if type(e).__name__ == 'Inconclusive' or harness.UNMODELLED:
                 continue
             return args
         finally:
             harness.CONCRETE[0] = False
-        if v is not True:
+        if v is not True and not harness.UNMODELLED:
             return args
     return None
 
